@@ -12,21 +12,29 @@ check_impl is the property's own predicate on the implementation's answer:
     call a SHA3/SHAKE instance (prefix of the digest), and the object's r,c afterwards must be what the constructor /
     setrate gave it,
   * the output length law (ceil(d/8) bytes, unused high bits zero) and the extra-block-not-failure law
-    (in-domain input => a value; blocks: floor(L/r)+1 blocks of r bits = N || 1 0* 1).
+    (in-domain input => a value; blocks: floor(L/r)+1 blocks of r bits = N || 1 0* 1),
+  * `fips202.sha3 / fips202.shake / fips202.f`: a handful of short lines per run whose specification column is computed
+    by the driver from the LITERAL bit-level transcription of FIPS 202 (lean/Spec/Fips202.lean through its evaluator,
+    proved equal in Proofs.C04_Fips202) — slow by construction; compared here with hashlib / the reference permutation.
 """
 import hashlib
 from props.common import *
 
 ID = 'C04'
-LEAN_PROOFS = ['Proofs.C04', 'Proofs.C04.SpecKat']
+LEAN_PROOFS = ['Proofs.C04', 'Proofs.C04.SpecKat', 'Proofs.C04_Fips202', 'Proofs.C04.Fips202Kat']
 GEN_ITEMS = ['KeccakG']
 RULE = ('op lines = (op, width b, rate r, bit-order mode, message, bit length L, output length d); rates incl. r<8 and r not a '
         'multiple of 8, L over {0,1,r-2,r-1,r,r+1,2r-2,2r-1,2r,2r+1,..} x L mod 8, d over {1,r,r+1,3r}; distinct lines; '
         'per-call rate lines (r=<rc>, setrate=<r1>, module-level objects): rc equal/smaller/larger than the object rate, odd, <8, 0, >=b, >1536, L on the block boundaries of both rates; non-trivial = the implementation returned a value')
-TRUSTED = ['Spec/Keccak.lean renders FIPS 202 at lane level (theta/rho/pi/chi/iota on 25 lanes of w bits); the bit-level reading of '
-           'FIPS 202 section 3.2 is cited, not re-proved',
-           'validated (supporting only) against hashlib sha3/shake, the vectors of tests/test_keccak.py and an independent Python '
-           'reference for b < 1600',
+TRUSTED = ['Spec/Fips202.lean is a faithful transcription of the printed FIPS 202 (bit strings, the state array of bits A[x,y,z], Algorithms 1-11, '
+           'sections 5.2 and 6, h2b/b2h; written to be compared with the standard line by line). The lane-level Spec/Keccak.lean the C04 theorems '
+           'are stated against is NO LONGER trusted for SHA-3/SHAKE/the sponge/the permutations: Proofs.C04_Fips202 proves it equal to the '
+           'transcription under the lane/bit correspondence (every lane size, state, round index, rate, message, output length) and re-states '
+           'sponge_refines / sha3_refines / shake_refines against Spec.Fips202',
+           'still read from Spec/Keccak.lean only: the duplex construction (CSF Algorithm 4, not part of FIPS 202) and the NIST-competition bit order '
+           'of a final partial byte (msgBitsNIST, Keccak submission section 6.1); in the native LSB-first mode the message bits are h2b(M, L) of FIPS 202 B.1',
+           'validated (supporting only) against hashlib sha3/shake, the vectors of tests/test_keccak.py, an independent Python '
+           'reference for b < 1600, and kernel-evaluated known answers of both specifications (Proofs/C04/SpecKat.lean, Proofs/C04/Fips202Kat.lean)',
            'CPython int/bytes/BytesIO semantics are modelled (Model.Py), validated by this stream']
 ASSUMPTIONS = ['python -O (asserts stripped) is out of scope', 'rate 0 makes Keccak.duplex/iterblocks loop forever in Python: outside the domain 0 < r',
                'a per-call rate 0 never returns (iterblocks yields empty blocks for ever): reported as HANG by a yield counter put on that one '
@@ -82,8 +90,11 @@ def run_impl(line):
         if op == 'keccak.loaddump':
             w = int(a[0]); st = K.State(w).load(mkbits(a[1]))
             return il(l.ival for l in st.lanes) + ';' + guarded(lambda: fb(st.dump(int(a[2]))))
-        if op == 'sha3': return hx(S.SHA3(int(a[0]))(unhx(a[1])))
-        if op == 'shake':
+        if op in ('sha3', 'fips202.sha3'): return hx(S.SHA3(int(a[0]))(unhx(a[1])))
+        if op == 'fips202.f':
+            w = int(a[0]); k = K.Keccak(b=25 * w, r=8)
+            return il(l.ival for l in k.f(state(w, a[1])).lanes)
+        if op in ('shake', 'fips202.shake'):
             f = {128: S.SHAKE128, 256: S.SHAKE256}[int(a[0])]
             return hx(f(unhx(a[1]), int(a[2])))
         if op == 'keccak.duplex':
@@ -288,17 +299,17 @@ def check_impl(line, res):
         got = sum(v << (i * r) for i, (_, v) in enumerate(blks))
         if got != P: return bad('blocks are not N || pad10*1')
         return None
-    if op == 'keccak.f':
+    if op in ('keccak.f', 'fips202.f'):
         w = int(a[0]); lanes = unil(a[1])
         S = sum(v << (w * i) for i, v in enumerate(lanes))
         T = ref_f(S, w)
         exp = il((T >> (w * i)) & ((1 << w) - 1) for i in range(25))
         return None if res == exp else bad('differs from the reference permutation')
-    if op == 'sha3':
+    if op in ('sha3', 'fips202.sha3'):
         n = int(a[0]); M = unhx(a[1])
         if n not in SHA3_RATE: return None if res == 'ERR' else bad('unsupported size must be refused')
         return None if res == hx(hashlib.new('sha3_%d' % n, M).digest()) else bad('differs from hashlib')
-    if op == 'shake':
+    if op in ('shake', 'fips202.shake'):
         n, M, d = int(a[0]), unhx(a[1]), int(a[2])
         if res == 'ERR': return bad('raised')
         out = unhx(res)
@@ -440,6 +451,33 @@ def sha_cases(tier, rng):
                 yield 'shake %d %s %d' % (n, hx(rbytes(rng, l)), d), 'shake%d' % n
     yield 'sha3 128 x616263', 'malformed'
     yield 'sha3 0 x', 'malformed'
+
+
+def fips202_cases(tier, rng):
+    """a handful of short lines answered from the literal bit-level transcription (about 1 s of driver time per
+    KECCAK-p[1600,24] call): every SHA3 size, the one-block / two-block boundary, SHAKE with one and two squeezes, and
+    KECCAK-f[25w] for every lane size"""
+    quick = tier == 'quick'
+    yield 'fips202.sha3 256 x', 'fips202:sha3'
+    yield 'fips202.sha3 224 %s' % hx(rbytes(rng, 1)), 'fips202:sha3'
+    yield 'fips202.sha3 384 x616263', 'fips202:sha3'
+    yield 'fips202.sha3 512 %s' % hx(rbytes(rng, 71)), 'fips202:sha3'                # 72-byte rate: pad byte 0x86
+    yield 'fips202.sha3 256 %s' % hx(rbytes(rng, rng.choice([135, 136]))), 'fips202:sha3'   # last byte of block one / a second block
+    yield 'fips202.shake 128 %s 264' % hx(rbytes(rng, 3)), 'fips202:shake'
+    yield 'fips202.shake 256 %s %d' % (hx(rbytes(rng, rng.randrange(0, 8))), rng.choice([5, 1088 + 3])), 'fips202:shake'
+    for w in (1, 2, 4, 8, 16, 32, 64):
+        if quick and w in (16, 32): continue
+        yield 'fips202.f %d %s' % (w, state_tok(rng, w, 'rand')), 'fips202:f'
+    if not quick:
+        for n, r in SHA3_RATE.items():
+            for l in (r // 8 - 1, r // 8, r // 8 + 1, rng.randrange(0, 3 * r // 8)):
+                yield 'fips202.sha3 %d %s' % (n, hx(rbytes(rng, l))), 'fips202:sha3'
+        for n, r in ((128, 1344), (256, 1088)):
+            for l, d in ((0, 8), (r // 8 - 1, r), (r // 8, r + 1), (rng.randrange(0, 200), rng.randrange(1, 2 * r))):
+                yield 'fips202.shake %d %s %d' % (n, hx(rbytes(rng, l)), d), 'fips202:shake'
+        for w in (1, 8, 64):
+            for kind in ('zero', 'ones'): yield 'fips202.f %d %s' % (w, state_tok(rng, w, kind)), 'fips202:f'
+    yield 'fips202.sha3 128 x616263', 'malformed'
 
 
 def perm_cases(tier, rng):
@@ -628,6 +666,7 @@ def cases(tier, rng):
     yield from duplex_cases(tier, rng)
     yield from rate_cases(tier, rng)
     yield from sponge_cases(tier, rng)
+    yield from fips202_cases(tier, rng)          # last: the earlier streams keep their lines for a given seed
 
 
 def shrink(line):
@@ -676,10 +715,16 @@ KAT_DUPLEX = 'keccak.duplex 1600 1027 | x 0 None | x00 1 None | x03 2 None'
 _kat()
 
 LEVEL_TEXT = ('Lean 4 theorems about Model.Keccak / Model.Sha3 (hand-written mirrors of crysp/keccak.py and the SHA3/SHAKE wrappers of '
-              'crysp/sha.py) against Spec.Keccak (FIPS 202 / Keccak reference at lane level, constants and offsets by their generating rules); '
+              'crysp/sha.py) against Spec.Keccak (FIPS 202 / Keccak reference at lane level, constants and offsets by their generating rules), and '
+              'Lean 4 theorems (Proofs.C04_Fips202) that Spec.Keccak equals Spec.Fips202 — FIPS 202 transcribed literally on bit strings and the '
+              'state array of bits A[x,y,z] — step mapping by step mapping (theta rho pi chi iota, rc, RC), for Rnd, KECCAK-p[b,nr], KECCAK-f[b], '
+              'pad10*1, SPONGE, h2b/b2h, KECCAK[c], SHA3-n, SHAKEn, for every lane size; so the model of the code equals the literal transcription '
+              '(sponge_refines_fips202, sha3_refines_fips202, shake_refines_fips202); '
               'the model is tied to the current source by the translator (round constants, rho-offset dict, pi destinations, width table) and by '
               'a boundary-directed correspondence stream that also evaluates an independent Python reference and hashlib on the real code.')
-LEVEL_NOTE = ('Trusted: Lean kernel; axioms ⊆ {propext, Classical.choice, Quot.sound}; extract.py/runcheck.py/props/C04.py; Spec/Keccak.lean as a '
-              'rendering of FIPS 202 (lane level; validated against hashlib, the library\'s published vectors and an independent reference); '
-              'CPython semantics are modelled. Theorem list with full/_partial status: evidence/C04.json coverage.theorems and lean/Proofs/C04.lean.')
+LEVEL_NOTE = ('Trusted: Lean kernel; axioms ⊆ {propext, Classical.choice, Quot.sound}; extract.py/runcheck.py/props/C04.py; Spec/Fips202.lean as a '
+              'line-by-line transcription of the printed FIPS 202 (the bit-level reading of section 3.2 is now PROVED equal to the lane-level '
+              'Spec/Keccak.lean, not cited; Spec/Keccak.lean stays trusted only for the duplex construction and the NIST-order partial byte, which '
+              'FIPS 202 does not define); both specifications validated against hashlib, the library\'s published vectors, an independent reference '
+              'and kernel-evaluated known answers; CPython semantics are modelled. Theorem list with full/_partial status: evidence/C04.json coverage.theorems and lean/Proofs/C04.lean.')
 TECHNIQUE = 'Lean 4 proof (kernel enumeration of constant tables, lane-wise refinement, induction over blocks/calls) + correspondence check'
